@@ -199,8 +199,13 @@ ElemIsInt(kind) == kind \in IntKinds
 IsContainer(kind) == kind \in ContKinds
 IsArr(kind) == kind \in ArrKinds
 \* one element: raw text -> [ok, v]; idx = 0-based index of the element in the destination (tuples)
+\* formats attached to one position of the destination (addFormatPos( idx, ...): "index 0 means the first value etc."); only
+\* tuple arguments carry them (field fmtpos: sequence of [p |-> 0-based position, f |-> format]); applied after the general ones
+PosFormats(arg, idx) == IF "fmtpos" \in DOMAIN arg
+                          THEN LET sel == SelectSeq(arg.fmtpos, LAMBDA x : x.p = idx) IN [k \in 1..Len(sel) |-> sel[k].f]
+                          ELSE <<>>
 ConvElemAt(arg, raw, idx) ==
-   LET f == Formatted(arg.formats, 1, raw)
+   LET f == Formatted(PosFormats(arg, idx), 1, Formatted(arg.formats, 1, raw))
        isint == IF arg.kind = "tup" THEN idx # 1 ELSE ElemIsInt(arg.kind) IN
    IF ~ChecksOK(arg, raw) THEN [ok |-> FALSE, v |-> 0]
    ELSE IF arg.kind = "dbl" THEN (IF IsQuarterText(f) THEN [ok |-> TRUE, v |-> QuartersOf(f)] ELSE [ok |-> FALSE, v |-> 0])
